@@ -176,6 +176,10 @@ func cmdCheck(args []string) int {
 	if lerr != nil {
 		fmt.Printf("[%s] cannot load /repo with contracts: %v\n", id, lerr)
 		report("load", "the repository or its contracts could not be loaded", lerr.Error(), true)
+		if *updateBaseline {
+			fmt.Println("baseline not updated: load failed")
+			os.Exit(1)
+		}
 	} else {
 		results = runFunctions(e, pc.Functions, VerifyOpts{TimeoutS: timeout, OutDir: workDir})
 	}
